@@ -165,6 +165,7 @@ structure DeclFrame where
 structure DeclFramer where
   first : Nat                 -- local number of the first frame
   frames : List DeclFrame
+  original : Bool := true     -- false: a clone of a moot framer (`aux <moot> as <name>`), `clone.original = False`
   deriving Repr
 
 def emptyFrame : FrameDef :=
@@ -199,7 +200,7 @@ def buildAll : Frid → Nat → List DeclFramer → Except Outline.ResolveErr (L
     | .ok fs =>
       match buildAll (fr + 1) (base + d.frames.length) rest with
       | .error e => .error e
-      | .ok (fs', ds') => .ok (fs ++ fs', { first := base + d.first } :: ds')
+      | .ok (fs', ds') => .ok (fs ++ fs', { first := base + d.first, original := d.original } :: ds')
 
 def mkProg (frames : List FrameDef) (framers : List FramerDef) : Prog :=
   { frame := fun f => (frames[f]?).getD emptyFrame,
